@@ -26,14 +26,14 @@ const hashSize = sha256.Size
 var newHash = sha256.New
 
 func hash(c *x509.Certificate) (hash [hashSize]byte) {
-	copy(hash[:], newHash().Sum(c.Raw))
-	return
+	return sha256.Sum256(c.Raw)
 }
 
 func hashChain(ch []*x509.Certificate) (hash [hashSize]byte) {
 	h := newHash()
 	for _, c := range ch {
-		h.Write(newHash().Sum(c.Raw))
+		d := sha256.Sum256(c.Raw)
+		h.Write(d[:])
 	}
 	copy(hash[:], h.Sum(nil))
 	return
